@@ -118,6 +118,23 @@ def gen_hierarchy(rng):
                 elif rng.random() < 0.08 and cell['trcl'] is None:
                     cell['trcl'] = gen_tr_spec(rng, deck, allow_plain12=False)
                 deck['cells'].append(cell)
+            if lvl and sids and rng.random() < 0.3:
+                # an empty cell in a filling universe: the same surface with
+                # both senses (no point belongs to it, the universe stays a
+                # partition)
+                sid = rng.choice(sids)
+                lits = [sid, -sid]
+                if len(sids) > 1 and rng.random() < 0.5:
+                    other = rng.choice([x for x in sids if x != sid])
+                    lits.insert(rng.randrange(3),
+                                other if rng.random() < 0.5 else -other)
+                cid = next_cid[0]
+                next_cid[0] += rng.choice([1, 2])
+                deck['cells'].append({
+                    'id': cid, 'mat': rng.choice([1, 2, 3]), 'rho': '-1.0',
+                    'expr': deckmod.leaf_expr(lits), 'imp': {'n': 1}, 'u': u,
+                    'lat': None, 'fill': None, 'trcl': common_trcl,
+                    'like': None})
     level0 = [c for c in deck['cells'] if c['u'] == 0]
     if rng.random() < 0.3:
         rng.choice(level0)['imp'] = {'n': 0}
